@@ -9,6 +9,7 @@ package conf
 
 import (
 	"fmt"
+	"os"
 	"reflect"
 	"runtime/debug"
 	"strings"
@@ -50,6 +51,39 @@ func c05cLoad(yaml bool, s *g.Shape, payload []byte) (out c05cOut) {
 		out.err = LoadFromJsonBytes(payload, v)
 	}
 	return out
+}
+
+// Attribution of a fatal process death: vk's Current file once per scenario, the call about
+// to run with one pwrite into a permanently open second *.current file (see lib/mapping harness).
+var (
+	c05cCurFile *os.File
+	c05cCurIdx  = -1 << 62
+	c05cCurBuf  [4096]byte
+)
+
+func c05cCurrent(m *vk.M, idx int, d string) {
+	if idx != c05cCurIdx {
+		c05cCurIdx = idx
+		m.Current(d)
+	}
+	dir := os.Getenv("VK_OUT")
+	if dir == "" {
+		return
+	}
+	if c05cCurFile == nil {
+		f, err := os.OpenFile(fmt.Sprintf("%s/C05.lastcall.%d.current", dir, os.Getpid()), os.O_CREATE|os.O_RDWR|os.O_TRUNC, 0o644)
+		if err != nil {
+			return
+		}
+		c05cCurFile = f
+	}
+	n := copy(c05cCurBuf[:], "\nlast call: ")
+	n += copy(c05cCurBuf[n:len(c05cCurBuf)-1], d)
+	for i := n; i < len(c05cCurBuf); i++ {
+		c05cCurBuf[i] = ' '
+	}
+	c05cCurBuf[len(c05cCurBuf)-1] = '\n'
+	c05cCurFile.WriteAt(c05cCurBuf[:], 0)
 }
 
 func c05cPanicSig(o c05cOut) string {
@@ -108,7 +142,7 @@ func (cr *c05cRun) call(yaml bool, doc map[string]any, note string) (c05cOut, st
 		p = append(append([]byte{}, p[:3000]...), "…"...)
 	}
 	d := fmt.Sprintf("case=%d;api=%s;%s;shape=%s;doc=%s", cr.idx, api, note, cr.shape.String(), p)
-	cr.m.Current(d)
+	c05cCurrent(cr.m, cr.idx, d)
 	out := c05cLoad(yaml, cr.shape, payload)
 	cr.m.Count("calls."+api, 1)
 	switch {
@@ -396,7 +430,7 @@ func TestVerifC05ConfKeys(t *testing.T) {
 					}
 					root, doc := mk(dk)
 					s := &g.Shape{Root: root, TagKey: "json"}
-					cr := &c05cRun{m: m, idx: idx, shape: s}
+					cr := &c05cRun{m: m, idx: idx >> 9, shape: s}
 					out, d := cr.call(yaml, doc, fmt.Sprintf("class=valid;tag-key=%s;doc-key=%s;where=%s", k, dk, where))
 					m.Case(d, true)
 					switch {
